@@ -1767,11 +1767,11 @@ def selftest():
 def jobs(tier, seed):
     q = tier == 'quick'
     out = []
-    nj, per = (10, 1500) if q else (12, 22000)
+    nj, per = (10, 1500) if q else (12, 18000)
     for i in range(nj):
         out.append({'check': 'judge', 'shard': i, 'n': per, 'seed': derive_seed(seed, 'C18', 'judge', i)})
     out.append({'check': 'subtype-pool', 'rows': list(range(len(POOL_TYPES)))})
-    ng, perg = (2, 3000) if q else (2, 50000)
+    ng, perg = (2, 3000) if q else (2, 40000)
     for i in range(ng):
         out.append({'check': 'subtype-gen', 'shard': i, 'n': perg, 'seed': derive_seed(seed, 'C18', 'subtype-gen', i)})
     ks, pers = (3, 40) if q else (2, 400)
